@@ -269,6 +269,16 @@ func runCrashWorkload(cfg CrashCfg, seed uint64, cas int, res *CrashRes) *crashW
 				doOne(&Op{K: OpWrite, H: o.FH, Off: uint64(rng.Intn(3)) * BlockSize, Count: 700, DataLen: 700, Uid: s.nextUid, Stable: 0})
 				op = &Op{K: OpSetattr, H: o.FH, SetSize: true, Size: uint64(rng.Intn(2 * BlockSize))}
 			}
+		case i%19 == 7:
+			// unstable data, then a SETATTR that changes nothing (size = current
+			// size): its acknowledgement is a stable one all the same
+			if o := s.pickObj(KReg); o != nil && o.Size < 64*BlockSize {
+				s.nextUid++
+				doOne(&Op{K: OpWrite, H: o.FH, Off: o.Size, Count: 700, DataLen: 700, Uid: s.nextUid, Stable: 0})
+				if oo := s.m.Obj(o.FH); oo != nil {
+					op = &Op{K: OpSetattr, H: o.FH, SetSize: true, Size: oo.Size}
+				}
+			}
 		case cfg.WriteHeavy && i%13 == 6:
 			// a request whose transaction the journal rejects (too large), in the
 			// middle of unstable writes: it must fail without side effects on what
